@@ -1378,11 +1378,58 @@ pub fn eval_step(p: &mut Project, cfg: &ChainCfg, seed: u64, step: usize, edits:
                     if let Some(d) = hist_diff(r2.history_out.as_ref().unwrap(), hout, &cmp) {
                         all_viols.push((mk("C12", "rerun-history-differs", "".into(), format!("history after re-evaluation differs: {}", d)), ""));
                     }
+                    // the same re-evaluation, aborted at some point while nothing is running: nothing was cut short, so
+                    // every job either re-recorded what it had or kept its records - the history is still the same
+                    {
+                        let w = Rc::new(RefCell::new(World { disk: disk_after.clone(), ..Default::default() }));
+                        let mut plan3 = Plan { sched_seed: trng.next(), max_parallel: 1, ..Default::default() };
+                        plan3.abort_at = Some(2 * trng.below(p.g.nodes.len() + 1));
+                        let r3 = evaluate(&p.g, hout, &w, &plan3, mode, &mut p.stamp, Chooser::Random(Rng::new(plan3.sched_seed)), None);
+                        acc.evaluations += 1;
+                        if r3.aborted && r3.abort_had_running == 0 && r3.errors.is_empty() {
+                            acc.count("c12_aborted_reevaluations_with_nothing_running", 1);
+                            match &r3.history_out {
+                                Some(h3) => {
+                                    if let Some(d) = hist_diff(h3, hout, &cmp) {
+                                        all_viols.push((mk("C12", "aborted-rerun-history-differs", "".into(), format!("re-evaluating the unchanged project and aborting while nothing is running returned a different history: {}", d)), "aborted-rerun"));
+                                    }
+                                }
+                                None => all_viols.push((mk("C12", "aborted-rerun-history-differs", "no-history".into(), "re-evaluating the unchanged project and aborting while nothing is running returned no history".to_string()), "aborted-rerun")),
+                            }
+                            for j in &r3.started {
+                                if p.g.kind(j) == JobKind::Output {
+                                    all_viols.push((mk("C12", "rerun-executed-output", "aborted".into(), format!("the aborted re-evaluation of the unchanged project executed Output {}", j)), "aborted-rerun"));
+                                }
+                            }
+                        }
+                    }
                     let has_out = p.g.nodes.iter().any(|n| n.kind == JobKind::Output);
                     let always_feeds_eph = p.g.nodes.iter().any(|n| n.kind == JobKind::Ephemeral && p.g.feeds_always(&n.id));
                     acc.count("c12_reevaluations", 1);
                     if has_out && always_feeds_eph {
                         acc.nontrivial("C12", case_hash);
+                    }
+                }
+            }
+        }
+        if cfg.twins && rep.history_out.is_none() && rep.errors.is_empty() && !rep.failed.is_empty() && !rep.aborted {
+            // the evaluation with failures did not complete (stall): the jobs without a failed ancestor still have to
+            // be executed exactly as in the failure-free evaluation (C07) - compare with the failure-free twin
+            let (u, _ud) = twin_eval(&p.g, &h_in, &disk_before, &mut trng, &mut p.stamp, mode, true, false);
+            acc.evaluations += 1;
+            if u.errors.is_empty() && u.history_out.is_some() {
+                let ustarted = u.started_set();
+                for n in &p.g.nodes {
+                    if n.kind == JobKind::Ephemeral {
+                        continue;
+                    }
+                    let anc = p.g.ancestors(&n.id);
+                    if rep.failed.contains(&n.id) || anc.iter().any(|a| rep.failed.contains(a)) {
+                        continue;
+                    }
+                    let (a, b) = (started.contains(&n.id), ustarted.contains(&n.id));
+                    if a != b {
+                        all_viols.push((mk("C07", "unaffected-job-differs-from-failure-free-run", format!("{}:{}/{}:did-not-complete", kind_char(n.kind), a, b), format!("{} has no failed ancestor; executed={} in the evaluation with failures (which did not complete) but executed={} in the failure-free twin", n.id, a, b)), ""));
                     }
                 }
             }
